@@ -321,3 +321,87 @@ package internal
 //@ requires canon: 0 <= fv(p.x) && fv(p.x) < P && 0 <= fv(p.z) && fv(p.z) < P
 //@ ensures val: *result == ite(fv(p.z) == 0, 0, (fv(p.x) * invmod(fv(p.z), P)) % P)
 //@ assigns nothing
+
+// Masked selection at the point level (property C14, the lemma "selection returns the selected table entry, or leaves
+// the point unchanged for bits == 0" used by the exponent contracts): multiSelectConditioned sets every coordinate to the
+// entry bits-1 of its row of the transposed table when 1 <= bits <= width (z to the Montgomery one when the table has no
+// z row) and leaves the point unchanged when bits == 0. Stated on the limbs, through the contract of fiat MultiSelect/Select.
+// The table (*[][]*[4]uint64) is modelled as read-only rows of pointer tables.
+//@ global_fact oneEl: nonnil(sm2ElementOne) && oksm2(sm2ElementOne)
+//@ define selrow(precomputed, r, bits, width, i, oldv) = ite(bits == 0, oldv, 0) | ite(1 <= zx(64, bits) && zx(64, bits) <= width, (*precomputed)[r][zx(64, bits) - 1][i], 0)
+//@ func (*sm2/internal.SM2Point).multiSelectConditioned
+//@ mode bv
+//@ requires wf: nonnil(q.x) && nonnil(q.y) && nonnil(q.z) && q.x != q.y && q.x != q.z && q.y != q.z
+//@ requires zok: !hasZ ==> oksm2(q.z)
+//@ requires rows: len(*precomputed) >= 3 && len((*precomputed)[1]) >= width && len((*precomputed)[2]) >= width && 0 <= width && width <= 255
+//@ panics_if precomputed == nil || len((*precomputed)[0]) != width
+//@ ensures x0: q.x.x[0] == selrow(precomputed, 0, bits, width, 0, old(q.x.x[0]))
+//@ ensures x1: q.x.x[1] == selrow(precomputed, 0, bits, width, 1, old(q.x.x[1]))
+//@ ensures x2: q.x.x[2] == selrow(precomputed, 0, bits, width, 2, old(q.x.x[2]))
+//@ ensures x3: q.x.x[3] == selrow(precomputed, 0, bits, width, 3, old(q.x.x[3]))
+//@ ensures y0: q.y.x[0] == selrow(precomputed, 1, bits, width, 0, old(q.y.x[0]))
+//@ ensures y1: q.y.x[1] == selrow(precomputed, 1, bits, width, 1, old(q.y.x[1]))
+//@ ensures y2: q.y.x[2] == selrow(precomputed, 1, bits, width, 2, old(q.y.x[2]))
+//@ ensures y3: q.y.x[3] == selrow(precomputed, 1, bits, width, 3, old(q.y.x[3]))
+//@ ensures z0: hasZ ==> q.z.x[0] == selrow(precomputed, 2, bits, width, 0, old(q.z.x[0]))
+//@ ensures z1: hasZ ==> q.z.x[1] == selrow(precomputed, 2, bits, width, 1, old(q.z.x[1]))
+//@ ensures z2: hasZ ==> q.z.x[2] == selrow(precomputed, 2, bits, width, 2, old(q.z.x[2]))
+//@ ensures z3: hasZ ==> q.z.x[3] == selrow(precomputed, 2, bits, width, 3, old(q.z.x[3]))
+//@ ensures zone: !hasZ ==> q.z.x[0] == ite(bits == 0, old(q.z.x[0]), sm2ElementOne.x[0]) && q.z.x[1] == ite(bits == 0, old(q.z.x[1]), sm2ElementOne.x[1]) && q.z.x[2] == ite(bits == 0, old(q.z.x[2]), sm2ElementOne.x[2]) && q.z.x[3] == ite(bits == 0, old(q.z.x[3]), sm2ElementOne.x[3])
+//@ returns q
+//@ assigns *q.x, *q.y, *q.z
+
+// The exported wrappers and selectPoints (the form the comb uses): the same statement with the z row (XYZ) or without (XY).
+//@ func (*sm2/internal.SM2Point).MultiSelectXY
+//@ mode bv
+//@ requires wf: q != nil && nonnil(q.x) && nonnil(q.y) && nonnil(q.z) && q.x != q.y && q.x != q.z && q.y != q.z && oksm2(q.z)
+//@ requires rows: len(*precomputed) >= 3 && len((*precomputed)[1]) >= width && len((*precomputed)[2]) >= width && 0 <= width && width <= 255
+//@ panics_if precomputed == nil || len((*precomputed)[0]) != width
+//@ ensures x0: q.x.x[0] == selrow(precomputed, 0, bits, width, 0, old(q.x.x[0]))
+//@ ensures x1: q.x.x[1] == selrow(precomputed, 0, bits, width, 1, old(q.x.x[1]))
+//@ ensures x2: q.x.x[2] == selrow(precomputed, 0, bits, width, 2, old(q.x.x[2]))
+//@ ensures x3: q.x.x[3] == selrow(precomputed, 0, bits, width, 3, old(q.x.x[3]))
+//@ ensures y0: q.y.x[0] == selrow(precomputed, 1, bits, width, 0, old(q.y.x[0]))
+//@ ensures y1: q.y.x[1] == selrow(precomputed, 1, bits, width, 1, old(q.y.x[1]))
+//@ ensures y2: q.y.x[2] == selrow(precomputed, 1, bits, width, 2, old(q.y.x[2]))
+//@ ensures y3: q.y.x[3] == selrow(precomputed, 1, bits, width, 3, old(q.y.x[3]))
+//@ ensures zone: q.z.x[0] == ite(bits == 0, old(q.z.x[0]), sm2ElementOne.x[0]) && q.z.x[1] == ite(bits == 0, old(q.z.x[1]), sm2ElementOne.x[1]) && q.z.x[2] == ite(bits == 0, old(q.z.x[2]), sm2ElementOne.x[2]) && q.z.x[3] == ite(bits == 0, old(q.z.x[3]), sm2ElementOne.x[3])
+//@ returns q
+//@ assigns *q.x, *q.y, *q.z
+
+//@ func (*sm2/internal.SM2Point).MultiSelectXYZ
+//@ mode bv
+//@ requires wf: q != nil && nonnil(q.x) && nonnil(q.y) && nonnil(q.z) && q.x != q.y && q.x != q.z && q.y != q.z
+//@ requires rows: len(*precomputed) >= 3 && len((*precomputed)[1]) >= width && len((*precomputed)[2]) >= width && 0 <= width && width <= 255
+//@ panics_if precomputed == nil || len((*precomputed)[0]) != width
+//@ ensures x0: q.x.x[0] == selrow(precomputed, 0, bits, width, 0, old(q.x.x[0]))
+//@ ensures x1: q.x.x[1] == selrow(precomputed, 0, bits, width, 1, old(q.x.x[1]))
+//@ ensures x2: q.x.x[2] == selrow(precomputed, 0, bits, width, 2, old(q.x.x[2]))
+//@ ensures x3: q.x.x[3] == selrow(precomputed, 0, bits, width, 3, old(q.x.x[3]))
+//@ ensures y0: q.y.x[0] == selrow(precomputed, 1, bits, width, 0, old(q.y.x[0]))
+//@ ensures y1: q.y.x[1] == selrow(precomputed, 1, bits, width, 1, old(q.y.x[1]))
+//@ ensures y2: q.y.x[2] == selrow(precomputed, 1, bits, width, 2, old(q.y.x[2]))
+//@ ensures y3: q.y.x[3] == selrow(precomputed, 1, bits, width, 3, old(q.y.x[3]))
+//@ ensures z0: q.z.x[0] == selrow(precomputed, 2, bits, width, 0, old(q.z.x[0]))
+//@ ensures z1: q.z.x[1] == selrow(precomputed, 2, bits, width, 1, old(q.z.x[1]))
+//@ ensures z2: q.z.x[2] == selrow(precomputed, 2, bits, width, 2, old(q.z.x[2]))
+//@ ensures z3: q.z.x[3] == selrow(precomputed, 2, bits, width, 3, old(q.z.x[3]))
+//@ returns q
+//@ assigns *q.x, *q.y, *q.z
+
+//@ func sm2/internal.selectPoints
+//@ mode bv
+//@ requires wf: out != nil && nonnil(out.x) && nonnil(out.y) && nonnil(out.z) && out.x != out.y && out.x != out.z && out.y != out.z && oksm2(out.z)
+//@ requires rows: len(*precomputed) >= 3 && len((*precomputed)[1]) >= width && len((*precomputed)[2]) >= width && 0 <= width && width <= 255
+//@ panics_if precomputed == nil || len((*precomputed)[0]) != width
+//@ ensures x0: out.x.x[0] == selrow(precomputed, 0, bits, width, 0, old(out.x.x[0]))
+//@ ensures x1: out.x.x[1] == selrow(precomputed, 0, bits, width, 1, old(out.x.x[1]))
+//@ ensures x2: out.x.x[2] == selrow(precomputed, 0, bits, width, 2, old(out.x.x[2]))
+//@ ensures x3: out.x.x[3] == selrow(precomputed, 0, bits, width, 3, old(out.x.x[3]))
+//@ ensures y0: out.y.x[0] == selrow(precomputed, 1, bits, width, 0, old(out.y.x[0]))
+//@ ensures y1: out.y.x[1] == selrow(precomputed, 1, bits, width, 1, old(out.y.x[1]))
+//@ ensures y2: out.y.x[2] == selrow(precomputed, 1, bits, width, 2, old(out.y.x[2]))
+//@ ensures y3: out.y.x[3] == selrow(precomputed, 1, bits, width, 3, old(out.y.x[3]))
+//@ ensures zone: out.z.x[0] == ite(bits == 0, old(out.z.x[0]), sm2ElementOne.x[0]) && out.z.x[1] == ite(bits == 0, old(out.z.x[1]), sm2ElementOne.x[1]) && out.z.x[2] == ite(bits == 0, old(out.z.x[2]), sm2ElementOne.x[2]) && out.z.x[3] == ite(bits == 0, old(out.z.x[3]), sm2ElementOne.x[3])
+//@ returns out
+//@ assigns *out.x, *out.y, *out.z
